@@ -51,11 +51,11 @@ FAMILY = {
 _IDENT = ['top1', 'tie', 'cmident', 'pdslice', 'cmreject']
 MIN_HITS = {
     'quick': dict({f'mon:{f}': 60 for f in FAMILY.values()}, **{f'mon:{f}': 40 for f in _IDENT},
-                  **{'edge:tie': 100, 'edge:fully-masked': 60, 'edge:k<1': 40, 'edge:k>=C': 40, 'edge:logits-mask': 40,
+                  **{'edge:tie': 100, 'edge:fully-masked': 60, 'edge:k<1': 40, 'edge:k>=C': 40, 'edge:logits-mask': 40, 'edge:logits-mask-finite-bias': 40,
                      'edge:extreme': 60, 'edge:per-position': 40, 'edge:masked-token': 100}),
     'thorough': dict({f'mon:{f}': 600 for f in FAMILY.values()}, **{f'mon:{f}': 400 for f in _IDENT},
                      **{'edge:tie': 1000, 'edge:fully-masked': 600, 'edge:k<1': 400, 'edge:k>=C': 400,
-                        'edge:logits-mask': 400, 'edge:extreme': 600, 'edge:per-position': 400,
+                        'edge:logits-mask': 400, 'edge:logits-mask-finite-bias': 400, 'edge:extreme': 600, 'edge:per-position': 400,
                         'edge:masked-token': 1000}),
 }
 
@@ -140,7 +140,8 @@ def ref_stat(a, y, pred):
     return r_mean(np.sum(loss * w), np.sum(w))
   if name in ('SequenceTokenAccuracy', 'SequenceTokenTopKAccuracy'):
     if a.get('logits_mask') is not None:
-      p = p + np.asarray(a['logits_mask'], np.float64)
+      # the metric adds the mask to float32 scores: do the addition in float32 (IEEE-identical), then widen
+      p = (np.asarray(p, np.float32) + np.asarray(a['logits_mask'], np.float32)).astype(np.float64)
     if name == 'SequenceTokenAccuracy':
       correct = np.array([float(r_argmax(p[i]) == int(y[i])) for i in range(L)])
     else:
@@ -267,7 +268,10 @@ def edge_flags(a, C, y, pred):
     p = np.asarray(pred, np.float64)
     if ba.get('logits_mask') is not None:
       flags.append('logits-mask')
-      p = p + np.asarray(ba['logits_mask'], np.float64)
+      p = (np.asarray(p, np.float32) + np.asarray(ba['logits_mask'], np.float32)).astype(np.float64)
+      lm_ = np.asarray(ba['logits_mask'], np.float64)
+      if np.any((lm_ != 0) & ~np.isneginf(lm_)):
+        flags.append('logits-mask-finite-bias')
     if mg.has_tie(p):
       flags.append('tie')
     if np.any(np.abs(np.asarray(pred, np.float64)) >= 1e29):
